@@ -44,7 +44,7 @@ try:
             fired[c["property_id"]] = {"rc": r.returncode, "fails": [l for l in r.stdout.splitlines() if l.startswith(("FAIL", "ANALYSIS"))][:8]}
     shutil.rmtree(env["VERIF_OUT"], ignore_errors=True)
 finally:
-    sh("git -C /repo checkout -- .")
+    sh("git -C /repo checkout -- . && git -C /repo clean -fdq -- src include")
 meta["alarms"] = fired
 meta["silent"] = not fired
 out = os.path.join(V, "refactors", name)
